@@ -167,7 +167,7 @@ class History:
     def isa(self, cls, wanted):
         return cls == wanted or wanted in self.P.classes[cls]['ancestors']
 
-    def value(self, t, i):
+    def value(self, t, i, depth=0):
         """-> (script token, matlab class of the value, sizes (m,n), expected serialisation | ('obj', var))"""
         r = self.r
         k, info = self.P.M.kind(t)
@@ -216,7 +216,7 @@ class History:
             want = self.P.M.matlab_class(info)
             cands = [v for v, rec in self.vars.items() if self.isa(rec['class'], want)]
             if not cands:
-                v = self.make_instance(want)
+                v = self.make_instance(want, depth)
                 if v is None:
                     return None
                 cands = [v]
@@ -244,7 +244,7 @@ class History:
         toks, classes, sizes, sers = [], [], [], []
         for i, a in enumerate(m.args[:n]):
             t = ref_inst.subst(a.type, env, this)
-            v = self.value(t, i) if depth < 3 else None
+            v = self.value(t, i, depth) if depth < 3 else None
             if v is None:
                 return None
             toks.append(v[0])
